@@ -34,6 +34,7 @@ import (
 	"strings"
 	"sync"
 	"sync/atomic"
+	"unicode"
 )
 
 // ----------------------------------------------------------------------------- reference punch codec
@@ -571,6 +572,60 @@ var vfC20Census *vfC20CensusFuncs
 type vfC20CensusFuncs struct {
 	Conn   func(w *PunchPacketConn, id string) (PunchMetadata, bool) // registry entry of id, read under the conn's own lock
 	Server func(sp *ServerPuncher, id string) bool                   // ServerPuncher's attempt table has id
+}
+
+// vfC20AttemptID draws an attempt id from mixed alphabets. Attempt ids are opaque strings
+// to the API (the server passes the rendezvous nonce verbatim), so nothing may depend on
+// their spelling: lower/upper/mixed-case hex (nonce-like), non-hex printable text with
+// blanks and non-ASCII, long ids, plain tags. uniq makes ids of one case pairwise distinct
+// (case-sensitively); maxLong bounds the long form.
+func vfC20AttemptID(r *rand.Rand, uniq string, maxLong int) string {
+	h := sha256.Sum256([]byte("vfC20-id/" + uniq))
+	hx := hex.EncodeToString(h[:16])
+	mixed := func(s string) string {
+		b := []byte(s)
+		for i := range b {
+			if r.Intn(2) == 0 {
+				b[i] = byte(unicode.ToUpper(rune(b[i])))
+			}
+		}
+		return string(b)
+	}
+	switch r.Intn(9) {
+	case 0:
+		return hx // 32 lower-case hex digits, like a nonce
+	case 1:
+		return strings.ToUpper(hx) // the same in upper case
+	case 2:
+		return mixed(hx)
+	case 3:
+		return "Attempt #" + uniq + " /\u00c4\u00d6 caf\u00e9\t(" + strings.ToUpper(hx[:6]) + ")"
+	case 4:
+		return strings.Repeat("Ab", 1+r.Intn(maxLong/2)) + "-" + uniq
+	case 5:
+		return uniq
+	case 6:
+		return strings.ToUpper(uniq)
+	case 7:
+		return mixed(uniq) + "." + strings.ToUpper(hx[:8])
+	default:
+		return "ID_" + mixed(hx[:12]) + "_" + uniq
+	}
+}
+
+// vfC20SwapCase returns s with the case of every ASCII letter flipped (an id that differs
+// from s only in case; equal to s if s has no letters).
+func vfC20SwapCase(s string) string {
+	b := []byte(s)
+	for i, c := range b {
+		switch {
+		case c >= 'a' && c <= 'z':
+			b[i] = c - 32
+		case c >= 'A' && c <= 'Z':
+			b[i] = c + 32
+		}
+	}
+	return string(b)
 }
 
 // ----------------------------------------------------------------------------- violation throttle
